@@ -219,5 +219,111 @@ theorem parseF64_with_unit (n : Nat) (c : Char) (r : Str) (hc : unitHead c = tru
     | cons _ _ => rfl
   rw [parseUnsignedDecimal_stop (showNat n) c r hall hemp hd hdot he hE]
 
+
+/-! ### every integer literal is a float literal -/
+
+theorem parseUnsignedDecimal_digits (ds : Str) (hall : ds.all isDigit = true) (hne : ds ≠ []) :
+    ∃ r, parseUnsignedDecimal ds = some r := by
+  have hemp : ds.isEmpty = false := by
+    cases h : ds with
+    | nil => exact absurd h hne
+    | cons _ _ => rfl
+  unfold parseUnsignedDecimal
+  simp only [takeWhile_all isDigit _ hall, dropWhile_all isDigit _ hall, hemp, Bool.false_and,
+    Bool.false_eq_true, if_false, parseExponent, fracPart, List.append_nil, List.length_nil]
+  exact ⟨_, rfl⟩
+
+theorem digits_first (ds : Str) (hall : ds.all isDigit = true) (hne : ds ≠ []) : ∃ c r, ds = c :: r ∧ isDigit c = true := by
+  cases ds with
+  | nil => exact absurd rfl hne
+  | cons c r =>
+    simp only [List.all_cons, Bool.and_eq_true] at hall
+    exact ⟨c, r, rfl, hall.1⟩
+
+/-- an unsigned run of digits is a float literal -/
+theorem parseF64_unsigned (ds : Str) (hall : ds.all isDigit = true) (hne : ds ≠ []) : ∃ v, parseF64? ds = some v := by
+  obtain ⟨c, r, hds, hc⟩ := digits_first ds hall hne
+  have hc1 : c ≠ '-' := by intro h; subst h; revert hc; decide
+  have hc2 : c ≠ '+' := by intro h; subst h; revert hc; decide
+  have hsign : splitSign ds = (false, ds) := by
+    subst hds
+    unfold splitSign
+    split
+    · rename_i t heq; simp at heq; exact absurd heq.1 hc1
+    · rename_i t heq; simp at heq; exact absurd heq.1 hc2
+    · rfl
+  have hl := lowerStr_digits ds hall
+  have w1 := digits_not_word ds hall (ofS "inf") ⟨'i', _, rfl, by decide⟩
+  have w2 := digits_not_word ds hall (ofS "infinity") ⟨'i', _, rfl, by decide⟩
+  have w3 := digits_not_word ds hall (ofS "nan") ⟨'n', _, rfl, by decide⟩
+  obtain ⟨u, hu⟩ := parseUnsignedDecimal_digits ds hall hne
+  unfold parseF64?
+  simp only [hsign, hl, w1, w2, w3, Bool.or_self, Bool.false_eq_true, if_false, hu]
+  exact ⟨_, rfl⟩
+
+theorem parseF64_signed (sgn : Char) (hs : sgn = '-' ∨ sgn = '+') (ds : Str) (hall : ds.all isDigit = true) (hne : ds ≠ []) :
+    ∃ v, parseF64? (sgn :: ds) = some v := by
+  have hsign : splitSign (sgn :: ds) = (sgn == '-', ds) := by
+    rcases hs with h | h <;> subst h <;> rfl
+  have hl := lowerStr_digits ds hall
+  have w1 := digits_not_word ds hall (ofS "inf") ⟨'i', _, rfl, by decide⟩
+  have w2 := digits_not_word ds hall (ofS "infinity") ⟨'i', _, rfl, by decide⟩
+  have w3 := digits_not_word ds hall (ofS "nan") ⟨'n', _, rfl, by decide⟩
+  obtain ⟨u, hu⟩ := parseUnsignedDecimal_digits ds hall hne
+  unfold parseF64?
+  simp only [hsign, hl, w1, w2, w3, Bool.or_self, Bool.false_eq_true, if_false, hu]
+  exact ⟨_, rfl⟩
+
+theorem isEmpty_false_ne {α : Type} (l : List α) (h : l.isEmpty = false) : l ≠ [] := by
+  intro hl; subst hl; simp at h
+
+theorem parseNat_some (x : Str) (n : Nat) (h : parseNat? x = some n) :
+    (∃ r, x = '+' :: r ∧ r.isEmpty = false ∧ r.all isDigit = true) ∨ (x.isEmpty = false ∧ x.all isDigit = true) := by
+  unfold parseNat? at h
+  split at h
+  · rename_i r
+    left
+    by_cases he : r.isEmpty = true
+    · simp [he] at h
+    · by_cases hd : r.all isDigit = true
+      · exact ⟨r, rfl, by simpa using he, hd⟩
+      · simp [he, hd] at h
+  · right
+    by_cases he : x.isEmpty = true
+    · simp [he] at h
+    · by_cases hd : x.all isDigit = true
+      · exact ⟨by simpa using he, hd⟩
+      · simp [he, hd] at h
+
+/-- **whatever parses as an `i64` parses as an `f64`** (so a cell that is no number is no integer either) -/
+theorem parseF64_none_parseI64_none (x : Str) (h : parseF64? x = none) : parseI64? x = none := by
+  cases hi : parseI64? x with
+  | none => rfl
+  | some v =>
+    exfalso
+    have hint : ∃ n, parseInt? x = some n := by
+      unfold parseI64? at hi
+      cases hp : parseInt? x with
+      | none => rw [hp] at hi; simp at hi
+      | some n => exact ⟨n, rfl⟩
+    obtain ⟨n, hn⟩ := hint
+    have hex : ∃ v, parseF64? x = some v := by
+      unfold parseInt? at hn
+      split at hn
+      · rename_i r
+        by_cases he : r.isEmpty = true
+        · simp [he] at hn
+        · by_cases hd : r.all isDigit = true
+          · exact parseF64_signed '-' (Or.inl rfl) r hd (isEmpty_false_ne r (by simpa using he))
+          · simp [he, hd] at hn
+      · cases hp : parseNat? x with
+        | none => rw [hp] at hn; simp at hn
+        | some m =>
+          rcases parseNat_some x m hp with ⟨r, hx, he, hd⟩ | ⟨he, hd⟩
+          · subst hx; exact parseF64_signed '+' (Or.inr rfl) r hd (isEmpty_false_ne r he)
+          · exact parseF64_unsigned x hd (isEmpty_false_ne x he)
+    obtain ⟨w, hw⟩ := hex
+    rw [h] at hw; cases hw
+
 end NumL
 end Fsel
